@@ -240,8 +240,11 @@ def oracle_C13(r):
             d = sd.get(s['full_name'])
             if d is None:
                 out.append('service %r has no descriptor' % s['full_name']); continue
-            got = [(m[1], bytes.fromhex(m[2][2:]), bytes.fromhex(m[3][2:])) for m in d['methods']]
-            if got != [tuple(m) for m in s['methods']]:
+            unhex = lambda tok: None if not tok.startswith('s:') else bytes.fromhex(tok[2:])   # NULL: name of a CODE_SIZE descriptor
+            got = [(m[1], unhex(m[2]), unhex(m[3])) for m in d['methods']]
+            want = [tuple(m) for m in s['methods']]
+            same = len(got) == len(want) and all(g[0] == w[0] and g[1] in (None, w[1]) and g[2] in (None, w[2]) for g, w in zip(got, want))
+            if not same:
                 out.append('service %r: methods differ from the schema (name, input, output, in declaration order)' % s['full_name'])
     return out
 
